@@ -10,15 +10,75 @@ def family(fx, name):
     return [f] + fx.descendants(name)
 
 
-def local_callees(fx, f):
+def stored_closures(fx):
+    """closures / coroutines that are erased into a trait object (stored, invoked later through the dyn)"""
+    s = getattr(fx, "_stored", None)
+    if s is None:
+        s = set()
+        for key, ent in fx.dyn.items():
+            for src in ent["sources"]:
+                if src.get("def"):
+                    s.add(src["def"])
+        fx._stored = s
+    return s
+
+
+def invoked_family(fx, name):
+    """a function with the nested closures it runs itself; closures stored behind a `dyn` are not entered here
+    (they are reached through the dyn call that invokes them)"""
+    f = fx.fn(name)
+    if f is None:
+        return []
+    st = stored_closures(fx)
+    out = [f]
+    for c in fx.children_of(name):
+        if c["def"] in st:
+            continue
+        out.extend(invoked_family(fx, c["def"]))
+    return out
+
+
+def dyn_targets(fx, t):
+    """closure bodies behind a call through one of the crate's private closure traits (dyn table)"""
+    st = t.get("self_ty") or ""
+    tr = t.get("trait")
+    if tr == "core::future::future::Future" and "dyn core::future::future::Future" in st:
+        # awaiting a boxed future: the coroutines erased into exactly that dyn type
+        import re
+        m = re.search(r"Box<(dyn core::future::future::Future.*), alloc::alloc::Global>", st)
+        if not m:
+            return []
+        ent = fx.dyn.get(m.group(1))
+        return [s["def"] for s in ent["sources"] if s.get("def") in fx.fns] if ent else []
+    if not (st.startswith("dyn ") and tr):
+        return []
+    out = []
+    for key, ent in fx.dyn.items():
+        if key.startswith("dyn " + tr + "<") or key == "dyn " + tr:
+            for s in ent["sources"]:
+                if s.get("def") and s["def"] in fx.fns:
+                    out.append(s["def"])
+    return out
+
+
+def local_callees(fx, f, through_dyn=True):
     out = []
     b = Body(f)
     for bi, t in b.normal_calls():
+        hit = False
         for key in ("resolved", "callee"):
             c = t.get(key)
             if c and c in fx.fns:
                 out.append((c, bi, t))
+                hit = True
                 break
+        if not hit and through_dyn:
+            for c in dyn_targets(fx, t):
+                out.append((c, bi, t))
+        # function items passed as arguments (combinators): Option::map(x, Addr::running)
+        for a in t["args"]:
+            if a.get("k") == "const" and a.get("fn") in fx.fns:
+                out.append((a["fn"], bi, t))
     return out
 
 
